@@ -152,6 +152,20 @@ func (r *vfResp) write(h *rtp.Header, pl []byte, _ interceptor.Attributes) (int,
 	}
 	// what the transport would read at the moment it sends the retransmission
 	j.emitted = vfPkt(h, pl)
+	// "the writers further down the chain may modify the header they are given" (a transport that re-stamps extensions and
+	// contributing sources in place): whatever it does to THIS retransmission's header must not reach the stored packet
+	for i := range h.CSRC {
+		h.CSRC[i] ^= 0x5A5A5A5A
+	}
+	for _, id := range h.GetExtensionIDs() {
+		if cur := h.GetExtension(id); len(cur) > 0 {
+			mod := make([]byte, len(cur))
+			for k := range cur {
+				mod[k] = cur[k] ^ 0xEE
+			}
+			_ = h.SetExtension(id, mod)
+		}
+	}
 	if j.failNext {
 		j.failNext = false
 
